@@ -1,11 +1,11 @@
 package main
 
 import (
-	"os"
 	"fmt"
 	"go/ast"
 	"go/token"
 	"go/types"
+	"os"
 	"sort"
 	"strings"
 
@@ -98,7 +98,9 @@ func checkC11(w *World, r *Report) {
 	})
 
 	r.Rule("R11.9", "the outcome does not depend on what was compiled or parsed before: package-level state of parse/, compile/, schema/ and data/ is never written after initialisation (no memo, pool or table filled at run time), apart from the reviewed debug switch and built-in type environment", 2)
-	r.guard("R11.9", func() { c06GlobalsIn(w, r, "R11.9", []string{"parse", "compile", "schema", "data/encoding", "data/datanode"}) })
+	r.guard("R11.9", func() {
+		c06GlobalsIn(w, r, "R11.9", []string{"parse", "compile", "schema", "data/encoding", "data/datanode"})
+	})
 
 	r.Rule("R11.10", "a name clash between modules is an error, not a race between them: the store into the name-keyed child map happens only when the name is not present (same obligation as R12.6) — otherwise the module visited last by the map iteration of NewModelSet wins", 2)
 	r.guard("R11.10", func() { c12NoOverwriteRule(w, r, "R11.10") })
@@ -120,7 +122,7 @@ func checkC11(w *World, r *Report) {
 	r.guard("R11.6", func() {
 		errRule(w, r, "R11.6", []string{"compile"}, map[string]string{
 			"featuresMap.getFeatures: os.Open": "feature directories: a failed Open leaves a nil *os.File whose Readdir returns an error that is tested on the next line",
-			"getSystemFeatures: os.Open": "feature directories: a failed Open leaves a nil *os.File whose Readdir returns an error that is tested on the next line",
+			"getSystemFeatures: os.Open":       "feature directories: a failed Open leaves a nil *os.File whose Readdir returns an error that is tested on the next line",
 		})
 	})
 
